@@ -23,6 +23,8 @@ pub fn main(args: &[String]) {
         sim.adversarial = k % 4 == 3;
         // half of the runs never propose a membership change: their P-level traces cover the whole run
         sim.fixed_conf = k % 4 < 2;
+        // run profiles: rare operations of one area at a higher rate
+        sim.focus = ((k / 4) % 5) as u8;
         sim.run(steps);
         if !sim.adversarial {
             let (c, i) = sim.pt.lines();
